@@ -140,6 +140,37 @@ def full_address_space(spec_failures, dist, quick):
                                   "program": "SET(R5, %d) BR(R5) NOP() x %d CALL(R12, R1)" % (total - 1, total - 4)})
 
 
+def wraparound_oracle(spec_failures, dist, quick):
+    """Programs that nearly fill the instruction space and take a relative branch out of the program at either end: the
+    run ends there; it does not continue at the instruction the target would name modulo 2^16 (seed C02j reduced the
+    target of relative branches mod 2^16: BRR(-5) at instruction 0 of a 65535-instruction program went on at 65531)."""
+    from hera.data import Settings
+    from hera.loader import load_program
+    from hera.vm import VirtualMachine
+    back = ["BRR(-5)"] + ["NOP()"] * 65530 + ["SETLO(R1, 42)", "HALT()", "NOP()", "NOP()"]
+    fwd = (["SET(R5, 65500)", "BR(R5)"] + ["NOP()"] * 61 + ["SETLO(R2, 43)", "HALT()"] + ["NOP()"] * (65500 - 66) + ["BRR(100)"]
+           + ["NOP()"] * 34)
+    cond = ["FON(8)", "BZR(-128)"] + ["NOP()"] * 65407 + ["SETLO(R3, 44)", "HALT()"] + ["NOP()"] * 124
+    for name, lines, reg, target in ([("BRR(-5) at instruction 0", back, 1, 65531)] if quick else
+                                     [("BRR(-5) at instruction 0", back, 1, 65531), ("BRR(100) at instruction 65500", fwd, 2, 64),
+                                      ("BZR(-128) at instruction 1", cond, 3, 65409)]):
+        st = Settings()
+        st.throttle = 40
+        prog, exc, _, _ = run_real(lambda: load_program("\n".join(lines) + "\n", st))
+        dist["wraparound_programs"] = dist.get("wraparound_programs", 0) + 1
+        if exc or prog is None:
+            spec_failures.append({"what": "a program of %d instructions is not loaded (%s)" % (len(lines), exc)})
+            continue
+        vm = VirtualMachine(st)
+        _, exc, _, _ = run_real(lambda: vm.run(prog))
+        if exc:
+            spec_failures.append({"what": "%s in a program of %d instructions: the run raised %s" % (name, len(prog.code), exc)})
+        elif vm.registers[reg] != 0 or vm.halted:
+            spec_failures.append({"what": "%s in a program of %d instructions leaves the program, yet the machine goes on at instruction "
+                                          "%d (R%d = %d, halted = %s): it wrapped around to other code"
+                                          % (name, len(prog.code), target, reg, vm.registers[reg], vm.halted)})
+
+
 def full_data_space(spec_failures, dist):
     """Data segments sized through chained constants, literal and repeated DSKIPs, that end around the top of memory:
     if the tool accepts the program, the machine it loads still has at most 2^16 cells, each a word (seed C02g: the
@@ -388,6 +419,7 @@ def correspondence(ctx, model_available=True):
     dsessions = debugger_histories(rng, 30 if quick else 400, spec_failures, dist)
     after_the_end(spec_failures, dist)
     full_address_space(spec_failures, dist, quick)
+    wraparound_oracle(spec_failures, dist, quick)
     full_data_space(spec_failures, dist)
     if model_available:
         dres = dp.correspondence("C02d", dsessions, True, check_history=False)
